@@ -1,6 +1,131 @@
-/-! Driver entry for property C16 (stub: not implemented yet). -/
+import HeartwoodModel.Model.FetchSched
+import HeartwoodModel.Driver.Util
+/-! Driver entry for C16. Case: `<conc>,<peers>,<repos>,<persist>,<have>,<seed> <op>…` (see
+`harness/c16/src/main.rs` for the op syntax). Output: one item per op: `P` (panic, run stops), `K`
+(result that is not outstanding) or `<emitted>/<fetching>/<sessions>`. -/
 namespace HeartwoodModel.Driver.C16
+open HeartwoodModel.FetchSched HeartwoodModel.Driver.Util
 
-def run (_args : List String) : String := "unimplemented"
+structure Dims where
+  peers : Nat
+  repos : Nat
+
+def dots? (s : String) : Option (List Nat) :=
+  if s == "-" then some [] else (splitOn s '.').mapM nat?
+
+def parseCfg (s : String) : Option (Cfg × Dims) :=
+  match splitOn s ',' with
+  | [conc, peers, repos, persist, hv, seed] => do
+    let conc ← nat? conc; let peers ← nat? peers; let repos ← nat? repos
+    let persist ← dots? persist; let hv ← dots? hv; let _ ← nat? seed
+    if peers == 0 || peers > 9 || repos == 0 || repos > 9 || conc > 64 then none
+    else if persist.any (fun p => p == 0 || p > peers) || hv.any (fun v => v == 0 || v > 3) then none
+    else some ({ conc, persist, want := fun v => if hv.contains v then 0 else v }, { peers, repos })
+  | _ => none
+
+def peer? (d : Dims) (s : String) : Option Nat := do
+  let n ← nat? s
+  if 1 ≤ n ∧ n ≤ d.peers then some n else none
+
+def repo? (d : Dims) (s : String) : Option Nat := do
+  let n ← nat? s
+  if 1 ≤ n ∧ n ≤ d.repos then some n else none
+
+def parseOp (d : Dims) (t : String) : Option Op :=
+  let (head, perm) : String × Option String :=
+    match splitOn t ':' with
+    | [h] => (h, none)
+    | [h, p] => (h, some p)
+    | _ => ("", none)
+  match head.toList, perm with
+  | 'i' :: rest, none => (peer? d (String.ofList rest)).map .connIn
+  | 'o' :: rest, none => (peer? d (String.ofList rest)).map .connOut
+  | 'd' :: rest, none => (peer? d (String.ofList rest)).map .dial
+  | 'x' :: l :: rest, some p => do
+    let n ← peer? d (String.ofList rest)
+    let p ← dots? p
+    if l == 'i' then some (.disc n .inbound p) else if l == 'o' then some (.disc n .outbound p) else none
+  | 'c' :: rest, none =>
+    match splitOn (String.ofList rest) '.' with
+    | [r, n] => do some (.fetchCmd (← repo? d r) (← peer? d n))
+    | _ => none
+  | 'a' :: rest, none =>
+    match splitOn (String.ofList rest) '.' with
+    | [r, n, v] => do
+      let v ← nat? v
+      if 1 ≤ v ∧ v ≤ 3 then some (.refsAnn (← repo? d r) (← peer? d n) v) else none
+    | _ => none
+  | 'r' :: rest, some p => do
+    let p ← dots? p
+    match rest.reverse with
+    | 's' :: k => let k ← nat? (String.ofList k.reverse); if k = 0 then none else some (.result k true p)
+    | 'f' :: k => let k ← nat? (String.ofList k.reverse); if k = 0 then none else some (.result k false p)
+    | _ => none
+  | ['w'], some p => (dots? p).map .wake
+  | _, _ => none
+
+def insertSorted (a : Nat) : List Nat → List Nat
+  | [] => [a]
+  | b :: bs => if a ≤ b then a :: b :: bs else b :: insertSorted a bs
+
+def sortNats (xs : List Nat) : List Nat := xs.foldr insertSorted []
+
+def range1 (n : Nat) : List Nat := (List.range n).map (· + 1)
+
+def keys (d : Dims) (s : State) : List Nat := (range1 d.peers).filter (fun n => (s.sessions n).isSome)
+
+/-- The permutation supplied with an event must list exactly the sessions that `dequeue_fetches` will see. -/
+def permOk (c : Cfg) (d : Dims) (s : State) : Op → Bool
+  | .disc n l p =>
+    let ks := keys d s
+    let ks := match s.sessions n with
+      | some x => if x.link == l && !c.persist.contains n then ks.filter (· != n) else ks
+      | none => ks
+    sortNats p == ks
+  | .result _ _ p => sortNats p == keys d s
+  | .wake p => sortNats p == keys d s
+  | _ => true
+
+def showEmit (e : Emit) : String := s!"r{e.rid}n{e.nid}v{e.refs}"
+
+def showState (d : Dims) (s : State) : String :=
+  let fs := (range1 d.repos).filterMap (fun r => (s.fetching r).map (fun f => s!"r{r}n{f.frm}v{f.refs}"))
+  let ss := (range1 d.peers).filterMap (fun n => (s.sessions n).map (fun x =>
+    let l := match x.link with | .inbound => "i" | .outbound => "o"
+    let st := match x.st with | .attempted => "A" | .connected _ => "C" | .disconnected => "D"
+    let set := joinWith "." ((sortNats x.fset).map toString)
+    let q := joinWith "," (x.queue.map (fun q =>
+      s!"{q.rid}:{q.refs}:{showBool q.chan}" ++ (if q.frm == n then "" else s!"@{q.frm}")))
+    s!"n{n}{l}{st}[{set}]({q})"))
+  (if fs.isEmpty then "-" else joinWith "," fs) ++ "/" ++ (if ss.isEmpty then "-" else joinWith ";" ss)
+
+def go (c : Cfg) (d : Dims) (s : State) : List Op → List String → Option (List String)
+  | [], acc => some acc.reverse
+  | op :: ops, acc =>
+    if !permOk c d s op then none else
+    let skip := match op with
+      | .result fid _ _ => (findPending s fid).isNone
+      | _ => false
+    if skip then go c d s ops ("K" :: acc) else
+    match step c s op with
+    | .error (.panic _) => some ("P" :: acc).reverse
+    | .error .badPerm => none
+    | .ok s' =>
+      let em := if s'.emits.isEmpty then "-" else joinWith "," (s'.emits.map showEmit)
+      go c d s' ops ((em ++ "/" ++ showState d s') :: acc)
+
+def run (args : List String) : String :=
+  match args with
+  | cfg :: ops =>
+    match parseCfg cfg with
+    | some (c, d) =>
+      match ops.mapM (parseOp d) with
+      | some ops =>
+        match go c d (init c) ops [] with
+        | some outs => joinWith " " outs
+        | none => "bad-op"
+      | none => "bad-op"
+    | none => "bad-op"
+  | _ => "bad-op"
 
 end HeartwoodModel.Driver.C16
